@@ -9,6 +9,10 @@ pub fn main(prop: &'static str, args: &Args) {
     let pkgs = generate(&spec);
     if let Some(p) = &args.replay {
         let case = crate::load_case(p);
+        if case["delegate"] == "C16" {
+            let st = std::process::Command::new(std::env::current_exe().unwrap()).args(["C16", "--replay", p]).status().unwrap();
+            std::process::exit(st.code().unwrap_or(2));
+        }
         if case["engine"] == "builtin" {
             std::process::exit(if crate::c07::replay(&case) { 0 } else { 1 });
         }
@@ -36,6 +40,26 @@ pub fn main(prop: &'static str, args: &Args) {
         let (t, extra) = crate::c04::explore("C03", depth, true, true);
         rep.set("algebra", extra);
         rep.absorb(t);
+    }
+    if prop == "C02" {
+        // the body layer: fields / variants of the element's body (body corpus of C16); only the
+        // error-reporting disagreements belong to C02
+        let body = crate::c16::generate_body(args.tier);
+        if let Err(e) = build(&body) {
+            vrt::machinery(&format!("corpus build failed:\n{}", e.chars().take(3000).collect::<String>()));
+        }
+        let mut t2 = run_shards(&body, "C02", args.tier, &[]);
+        t2.violations.retain(|v| v.key.contains(":: errors [") || v.key.contains(":: accepted (as") || v.key.contains(":: rejected a convertible"));
+        t2.violation_count = t2.violations.len() as u64;
+        for v in &mut t2.violations {
+            v.key = v.key.replacen("C16 ", "C02 ", 1);
+            v.case["delegate"] = json!("C16");
+        }
+        t2.states = t2.evaluations;
+        t2.transitions = t2.evaluations;
+        t2.traces = t2.evaluations;
+        t2.counters.retain(|k, _| k == "receivers" || k == "derive_inputs");
+        rep.absorb(t2);
     }
     if prop == "C07" {
         // the other corpora, for panics only: attribute receivers (incl. forwarding-only ones and
